@@ -22,6 +22,8 @@ func checkC01(c *Ctx) {
 	c01ReaderEscapes(c)
 	c01BracketRegions(c)
 	c01SplatUpgrade(c)
+	unicodeEscapeRule(c, "escapes")
+	c01EvalPure(c)
 	c.NotCovered("everything that is computation rather than table or shape: conversion at operand positions, conditional type unification, splat/for/template semantics, heredoc trimming")
 	c.NotCovered("the Ragel scanners (scan_tokens.rl, scan_string_lit.rl): token spellings and string-literal slicing are trusted")
 }
@@ -957,4 +959,33 @@ func kindReachable(fn *ssa.Function, target *ssa.BasicBlock, kind string) bool {
 	}
 	visit(fn.Blocks[0], nil, env{}, 0)
 	return found
+}
+
+
+// R8 eval.pure: evaluating an expression does not change it.
+func c01EvalPure(c *Ctx) {
+	c.Rule("R8 eval.pure: no function reachable from a Value method of a native-syntax expression node (or from hcl.Index / hcl.GetAttr / Traversal.TraverseAbs/Rel) writes memory it did not allocate, other than the lock-guarded per-context table of AnonSymbolExpr: evaluation must not modify the syntax tree, or a second evaluation of the same expression (a loop body, a repeated Value call) evaluates a different expression than the one written")
+	roots := map[*ssa.Function]bool{}
+	for _, fn := range c.P.pkgFuncs("hclsyntax") {
+		if fn.Parent() == nil && fn.Signature.Recv() != nil && fn.Name() == "Value" {
+			roots[fn] = true
+		}
+	}
+	for _, a := range [][2]string{{"", "Index"}, {"", "GetAttr"}, {"", "Traversal.TraverseAbs"}, {"", "Traversal.TraverseRel"}} {
+		if f := c.P.LookupFunc(a[0], a[1]); f != nil {
+			roots[f] = true
+		} else {
+			c.CheckerFail("eval.pure", "anchor "+a[0]+"."+a[1]+" does not resolve")
+		}
+	}
+	cut := map[*ssa.Function]bool{}
+	for _, a := range [][2]string{{"hclsyntax", "ParseExpression"}, {"hclsyntax", "ParseTemplate"}, {"hclsyntax", "ParseTraversalAbs"}, {"hclsyntax", "ParseConfig"}} {
+		if f := c.P.LookupFunc(a[0], a[1]); f != nil {
+			cut[f] = true
+		}
+	}
+	nFns, nWrites := runEffects(c, "eval.pure", roots, map[string]bool{"hcl": true, "hclsyntax": true}, cut, "evaluation modifies the expression (or other shared state) it evaluates")
+	c.Floor("eval.pure roots", len(roots), 20, "Value methods of the expression node types")
+	c.Floor("eval.pure functions", nFns, 60, "functions reachable from evaluation")
+	c.Floor("eval.pure writes", nWrites, 40, "writes classified")
 }
